@@ -197,7 +197,7 @@ def run(ctx):
     if not ctx.build_driver("e8"):
         corr_broken.append("driver drv_e8 does not build")
     # ---- to_nsq
-    b_tonsq = ctx.go_test_binary("apps/to_nsq", ["e8/tonsq_test.go", "e8/tonsq_e2e_test.go", "e8/stub_nsqd.go"], "e8tonsq", pkgname="main")
+    b_tonsq = ctx.go_test_binary("apps/to_nsq", ["e8/tonsq_test.go", "e8/tonsq_e2e_test.go", "e8/stub_nsqd.go"] + c20_audit7.TONSQ_FILES, "e8tonsq", pkgname="main")
     if not b_tonsq:
         ctx.broken_ties.append("harness e8/tonsq_test.go does not compile against the current tree")
     elif ctx.replay_in:
@@ -236,6 +236,7 @@ def run(ctx):
             ctx.corr["to_nsq_inputs"] = sizes
             ctx.add_sample({"op": res[0][0], "impl": res[1][0]})
         c20_opts.tonsq_e2e(ctx, b_tonsq, corr_broken)
+        c20_audit7.tonsq_refuse(ctx, b_tonsq, corr_broken)   # audit7-b: a destination refuses a record (fail-stop)
     # ---- relays
     if not ctx.replay_in:
         b = ctx.go_test_binary("apps/nsq_to_nsq", ["e8/n2n_test.go", "e8/n2n_opts_test.go", "e8/stub_nsqd.go"] + c20_audit7.N2N_FILES, "e8n2n", pkgname="main")
